@@ -50,6 +50,8 @@ pub struct SynOpts {
   pub radix_float_literals: bool,
   /// byte strings with an escaped apostrophe ('it\\'s')
   pub escaped_quote_in_bytes: bool,
+  /// `-0`, byte strings with raw line breaks
+  pub odd_spellings: bool,
   /// h'..' / b64'..' literals spelled over two lines with a `; text` inside the quotes (RFC 8610 section 3.1)
   pub bytes_with_inner_comment: bool,
 }
@@ -76,6 +78,7 @@ impl Default for SynOpts {
       no_paren_at_arrow_key_head: false,
       radix_float_literals: false,
       escaped_quote_in_bytes: false,
+      odd_spellings: true,
       bytes_with_inner_comment: false,
     }
   }
@@ -140,6 +143,7 @@ impl<'a, 'b, 'o> SynGen<'a, 'b, 'o> {
     }
     let w = [40, 30, if self.o.floats { 12 } else { 0 }, if self.o.bytes { 12 } else { 0 }];
     match self.t.weighted(&w) {
+      0 if self.o.odd_spellings && self.t.chance(1, 12) => Lit::Int { v: 0, sp: "-0".to_string() },
       0 => {
         let v = *self.t.pick(INTS);
         // occasionally a radix spelling
@@ -172,7 +176,8 @@ impl<'a, 'b, 'o> SynGen<'a, 'b, 'o> {
           if self.o.escaped_quote_in_bytes && self.t.chance(1, 5) {
             Lit::Bytes { kind: BytesKind::Utf8, v: b"it's".to_vec(), sp: "'it\\'s'".to_string() }
           } else {
-            Lit::bytes_utf8(*self.t.pick(&["", "abc", "x y", "b;c", "\u{e9}"]))
+            let pool: &[&str] = if self.o.odd_spellings { &["", "abc", "x y", "b;c", "\u{e9}", "l1\nl2", "cr\r\nlf", "q\"q"] } else { &["", "abc", "x y", "b;c", "\u{e9}"] };
+            Lit::bytes_utf8(*self.t.pick(pool))
           }
         }
         1 => {
